@@ -51,6 +51,15 @@ static void spell(char *out, const char *form, size_t n, int mode) {
 }
 
 #include <ctype.h>
+/* a numeric suffix as a user may write it: mostly small, sometimes large, sometimes with leading zeros ("08", "010", "0017", "00")
+ * - the matcher must read it as a decimal number whatever its spelling */
+static void numsuffix(char *out, unsigned big) {
+    unsigned k = h_below(10);
+    if (k < 6) sprintf(out, "%u", h_below(30));
+    else if (k < 8) { unsigned z = 1 + h_below(3), i; for (i = 0; i < z; i++) out[i] = '0'; sprintf(out + z, "%u", h_chance(50) ? h_below(10) : h_below(100)); if (h_chance(15)) out[z] = 0; }
+    else sprintf(out, "%u", h_below(big));
+}
+
 /* one header mnemonic derived from keyword k: short, long, near misses, digits, other keyword */
 static size_t mnemonic(char *out, const kw_t *k, int numeric) {
     char tmp[64]; size_t n; unsigned v = h_below(12);
@@ -62,10 +71,10 @@ static size_t mnemonic(char *out, const kw_t *k, int numeric) {
         case 7: spell(tmp, k->longf, ll, (int) h_below(4)); strcat(tmp, "x"); break;                            /* one letter more */
         case 8: spell(tmp, k->longf, (size_t) k->shortlen + (k->shortlen < (int) ll ? 1 : 0), 0); break;        /* between short and long */
         case 9: { const kw_t *o = &pool[h_below(NPOOL)]; spell(tmp, o->longf, h_chance(50) ? strlen(o->longf) : (size_t) o->shortlen, 0); break; }
-        case 10: spell(tmp, k->longf, (size_t) k->shortlen, 0); sprintf(tmp + strlen(tmp), "%u", h_below(3) == 0 ? h_below(100000) : h_below(20)); break; /* digits */
-        default: spell(tmp, k->longf, ll, 0); sprintf(tmp + strlen(tmp), "%u", h_below(20)); break;
+        case 10: spell(tmp, k->longf, (size_t) k->shortlen, 0); numsuffix(tmp + strlen(tmp), 100000); break; /* digits */
+        default: spell(tmp, k->longf, ll, 0); numsuffix(tmp + strlen(tmp), 20); break;
     }
-    if (numeric && h_chance(50) && v < 6) sprintf(tmp + strlen(tmp), "%u", h_chance(80) ? h_below(30) : h_below(2000000000u));
+    if (numeric && h_chance(50) && v < 6) numsuffix(tmp + strlen(tmp), 2000000000u);
     n = strlen(tmp); memcpy(out, tmp, n); return n;
 }
 
@@ -86,7 +95,7 @@ void dom_match(void) {
               while (*p) {
                   if (*p == '[') { depth = 1; skip = h_chance(50); p++; continue; }
                   if (*p == ']') { depth = 0; skip = 0; p++; continue; }
-                  if (*p == '#') { if (h_chance(50)) hl += (size_t) sprintf(hdr + hl, "%u", h_below(40)); p++; continue; }
+                  if (*p == '#') { if (h_chance(50)) { numsuffix(hdr + hl, 40); hl += strlen(hdr + hl); } p++; continue; }
                   if (depth && skip) { p++; continue; }
                   if (islower((unsigned char) *p) && h_chance(40)) { while (islower((unsigned char) *p)) p++; continue; }
                   hdr[hl++] = h_chance(50) ? (char) tolower((unsigned char) *p) : *p; p++;
